@@ -952,7 +952,13 @@ func evalCase(c *Ctx, ops []op, kind string) {
 			}
 		}
 	}
-	c.Case(fmt.Sprintf("rt %s %s", cls, ol), rt)
+	// the class keys the round-trip line; a still picture with an explicit canvas is the
+	// still-canvas class whether or not its frame is a complete bitstream
+	rtcls := cls
+	if cls == "invalid-frame" && len(sh.frames) > 0 && !sh.animated() && sh.cw > 0 && sh.ch > 0 {
+		rtcls = "still-canvas"
+	}
+	c.Case(fmt.Sprintf("rt %s %s", rtcls, ol), rt)
 
 	// -- direct evaluation
 	if st == "panic" {
